@@ -20,7 +20,7 @@ Inductive opname :=
 (* cron *)
 | Op_cron_parse | Op_cron_next
 (* TZif *)
-| Op_tz_lookup | Op_tz_expect | Op_tz_synth
+| Op_tz_lookup | Op_tz_expect | Op_tz_synth | Op_tz_local
 (* text *)
 | Op_fmt | Op_parse | Op_roundtrip | Op_rfc_fmt | Op_rfc_parse | Op_display | Op_fromstr | Op_serde_ser | Op_serde_de | Op_serde_rt.
 
